@@ -146,17 +146,23 @@ def scenario(seed, n_threads, per_thread, partial, inbound, lines, limit, sizes)
                 return False
             if state["pending_in"] and not sock.inbox and rng.random() < 0.03:
                 sock.inbox.append(state["pending_in"].pop(0))
-            if len(done) == n_threads and not state["pending_in"] and not sock.inbox:
+            if len(done) == n_threads and not state["pending_in"] and not sock.inbox and pipeline_idle():
+                # every stage empty for 600 consecutive scheduler steps (a batch may be in a local variable of the
+                # state-machine thread between leaving the queue and reaching the hand-over buffer)
                 if state["after"] is None:
                     state["after"] = s.steps
-                if pipeline_idle() and s.steps - state["after"] > 400:
+                if s.steps - state["after"] > 600:
                     return True
+            else:
+                state["after"] = None
             return False
         status = s.run(until=until)
         a = d._association
         accepted = [e[3] for e in log if e[0] == "put" and a is not None and e[1] == id(a._send_messages)]
         idle = pipeline_idle()
         excs = [(t.name, type(t.exc).__name__, str(t.exc)[:80]) for t in s.tasks if t.exc is not None]
+        debug = {"queue_left": len(a._send_messages.queue) if a is not None else None, "state": d.get_current_state(),
+                 "blocked": s.blocked()[:6], "tasks": [(t.name, t.done, t.label[:2] if isinstance(t.label, tuple) else t.label) for t in s.tasks]}
     finally:
         s.kill()
         undo()
@@ -164,7 +170,7 @@ def scenario(seed, n_threads, per_thread, partial, inbound, lines, limit, sizes)
         TR.TcpConnection._set_selector_events_mask, TR.TcpConnection.write, TR.TcpConnection.read = orig_mask, orig_write, orig_read
         del TR.TcpConnection._out_pending
     return {"status": status, "out": sock.out, "accepted": accepted, "submitted": submitted, "log": log, "done": sorted(done), "idle": idle,
-            "excs": excs, "schedule_len": len(s.choices), "steps": s.steps, "send_queue_id": id(a._send_messages) if a is not None else None}
+            "excs": excs, "debug": debug, "schedule_len": len(s.choices), "steps": s.steps, "send_queue_id": id(a._send_messages) if a is not None else None}
 
 
 def verdict(res, n_threads):
